@@ -45,7 +45,7 @@ def _p13e(ctx):
     rd = x.ext_calls(r'(^|::)ptr::(read|drop_in_place)$')
     ok = len(de) == 1 and bool(rd) and _is(g, g.ev_local(g.nodes[de[0]].call['inlined'], 2), 'param', 2) and all(x.reaches(r_, de[0]) for r_ in rd) and \
         not (x.reachable_entry(blocked=set(de)) & set(g.exits))
-    rng = any(any(s_ == ('param', g.root_inst, 2) for s_ in g.deep_walk(a)) for n in x.ext_calls(r'into_iter$') for a in g.call_args(n))
+    rng = any(any(s_ == ('param', g.root_inst, 2) for s_ in g.deep_walk(a)) for a in x.loop_bounds())
     ctx.add('P13e', 'T-FLOW', fn, ok and rng, 'do_free drops the num elements and then deallocates num' if ok and rng else
             'ToFree::do_free does not (drop each of the num elements, then deallocate num)', sub='do_free')
     fn = ctx.fn1(r'^memory::ToFree::new$')
@@ -84,7 +84,9 @@ def _p12k(ctx):
     ok = ok and all(x.calls_in(g.call_args(p_)[1]) & ret for p_ in pushes)
     ctx.add('P12k', 'T-FLOW', fn, ok, 'a new token starts at the current global epoch (read under the manager lock) and is registered in the token list' if ok else
             'get_token does not create the token at the current epoch under the manager lock / does not register exactly that token', sub='get_token')
-    fn = ctx.fn1(r'^memory::MemoryManagerInner::remove_token$')
+    # remove_token (the inner helper may or may not exist as a function of its own: everything is read off the graph
+    # of the outer MemoryManager::remove_token, where it is inlined)
+    fn = ctx.fn1(r'^memory::MemoryManager::remove_token$')
     g = ctx.graph(fn)
     x = g.x
     rets = x.ext_calls(r'Vec(::<.*>)?::retain(_mut)?$')
@@ -96,12 +98,9 @@ def _p12k(ctx):
                 pred = True
     ok = bool(rets) and pred and not (x.reachable_entry(blocked=set(rets)) & set(g.exits))
     ctx.add('P12k', 'T-FLOW', fn, ok, 'remove_token drops exactly the given token from the list (retain != token)' if ok else
-            'MemoryManagerInner::remove_token does not keep "every token except the given one"', sub='remove_token')
-    fn = ctx.fn1(r'^memory::MemoryManager::remove_token$')
-    g = ctx.graph(fn)
-    x = g.x
+            'remove_token does not keep "every token except the given one"', sub='remove_token')
     fr = x.inlined(r'memory::MemoryManager::free$')
-    rm = x.inlined(r'memory::MemoryManagerInner::remove_token$')
+    rm = rets
     up = x.inlined(r'memory::MemoryManager::update_token$')
     ok = bool(fr) and bool(rm) and bool(up) and all(x.dom(set(rm), f_) for f_ in fr) and all(x.dom(set(up), r_) for r_ in rm) and \
         all(_is(g, g.ev_local(g.nodes[f_].call['inlined'], 2), 'param', 2) or any(s_ == ('param', g.root_inst, 2) for s_ in g.deep_walk(g.ev_local(g.nodes[f_].call['inlined'], 2))) for f_ in fr)
@@ -126,7 +125,7 @@ def _s3c(ctx):
         fn = ctx.fn1(nm)
         g = ctx.graph(fn, 'BCast' if 'broadcast' in nm else 'MPMC')
         x = g.x
-        calls = [c for c in x.inlined(inner) if g.nodes[c].inst == g.root_inst]
+        calls = [c for c in x.inlined(inner) if x.home(c) == g.root_inst]
         ok = len(calls) == 1
         if ok:
             inst = g.nodes[calls[0]].call['inlined']
@@ -255,7 +254,7 @@ def _p10h(ctx):
             if a.op in ('compare_exchange', 'compare_exchange_weak', 'compare_and_swap'):
                 for sid in x.switches():
                     e = g.strip(g.switch_expr(sid))
-                    if e[0] == 'discr' and g.strip(e[1]) == ('call', a.nid):
+                    if e[0] == 'discr' and g.strip(e[1])[0] == 'call' and x.rep(g.strip(e[1])[1]) == x.rep(a.nid):
                         succ.update(x.switch_edges(sid, '0'))
             else:
                 succ.add(a.nid)
